@@ -333,6 +333,7 @@ func c12Series(c *core.Ctx, k *core.Case) {
 		return string(b)
 	}
 	var trail []string
+	var held [][2]string
 	for i := 0; i < int(k.I[1]); i++ {
 		what := "first"
 		if i > 0 {
@@ -401,6 +402,24 @@ func c12Series(c *core.Ctx, k *core.Case) {
 		if got := nasConvert.AmfIdToModels(region, set, ptr); got != fmt.Sprintf("%06x", amf) {
 			c.Fail(k, "series:amfid", fmt.Sprintf("step %d (changed: %v): AmfIdToModels(%#x,%#x,%#x) = %q", i, trail, region, set, ptr, got))
 			return
+		}
+		// a text the library returned is a value: the caller keeps it (a log line, a map key, a
+		// context field) while later identities are converted, and it stays what it was
+		var ts nasType.TMSI5GS
+		copy(ts.Octet[:], refconv.STmsiWire(set, ptr, tmsi))
+		st5, _, _ := ts.Get5GSTMSI()
+		ms1, _, _ := mi.GetMobileIdentity()
+		ss, sp, _ := nasConvert.SuciToStringWithError(cloneB(sw))
+		for _, t := range []string{gt, st5, ms1, mi.Get5GGUTI(), mi.GetPlmnID(), mi.GetAmfID(), mi.Get5GTMSI(), mi.GetAmfSetID(), mi.GetAmfPointer(), mi.GetAmfRegionID(), ss, sp, nasConvert.PlmnIDToString(pw[:]), nasConvert.AmfIdToModels(region, set, ptr), guami.AmfId} {
+			if len(held) < 4096 {
+				held = append(held, [2]string{t, strings.Clone(t)})
+			}
+		}
+		for hi, h := range held {
+			if h[0] != h[1] {
+				c.Fail(k, "series:returned-text-changed-later", fmt.Sprintf("step %d: a text returned %d calls ago read %q when it was returned and reads %q now", i, len(held)-hi, h[1], h[0]))
+				return
+			}
 		}
 	}
 	c.Count("series", 1)
